@@ -1,9 +1,11 @@
 /-
-C02 — witness of a defect of the current code: **a compressor failure can be swallowed, and whether it is depends on
-`max_backlog`** (and, on the threaded pool, on the schedule).
+C02 — witness of a defect that /repo 69db961 repaired (kept as the record of what the code before it did, and replayed on
+every run so that a tree lacking the repair is recognised): **a compressor failure could be swallowed, and whether it was
+depended on `max_backlog`** (and, on the threaded pool, on the schedule).  `runV false` = the code before 69db961 (`sync` is
+the drain alone), `run` / `runV true` = the current code (`Sqfs/Model/BlockProc.lean`).
 
 `process_block` returns `do_block`'s negative value to the pool; the pool records it as its status and hands the item back
-like any other; the block processor reads the status only after a failed `submit` or a NULL `dequeue`
+like any other; before 69db961 the block processor read the status only after a failed `submit` or a NULL `dequeue`
 (`Sqfs/Model/BlockProcFail.lean`).  One `DONT_FRAGMENT` file of five full blocks, block size 4, the compressor fails on the
 first block (`marked`), serial pool:
 
@@ -13,7 +15,7 @@ first block (`marked`), serial pool:
   **`finish` returns 0**, the block the compressor failed on is stored uncompressed.
 
 Replayed on the real code on every run: corpus/C02/script_fail_backlog.json (tools/checks/c02.py, harness/h_c02.c codec `toyf`).
-With the repaired `sync` (fixes/C02-report-worker-failure.patch: it returns the pool status) both runs fail.
+With the current `sync` (69db961 = fixes/C02-report-worker-failure.patch: it returns the pool status) both runs fail.
 -/
 import Sqfs.Model.BlockProcFail
 import Sqfs.Model.ToyCodec
@@ -33,8 +35,8 @@ def errOf {α : Type} : Except Err α → Option Err
   | .error e => some e
   | .ok _ => none
 
-/-- **current code**: the same input fails with `max_backlog = 3` and succeeds with `max_backlog = 40` -/
-theorem failure_swallowed_current :
+/-- **before 69db961**: the same input fails with `max_backlog = 3` and succeeds with `max_backlog = 40` -/
+theorem failure_swallowed_before_69db961 :
     errOf (runV false wP 3 [wFile]) = some (.pool (-3)) ∧
     (runV false wP 40 [wFile]).toOption.map (fun o => (o.calls.length, o.file.length)) = some (6, 20) := by
   decide +kernel
@@ -44,17 +46,21 @@ theorem failure_swallowed_block_stored_raw :
     (runV false wP 40 [wFile]).toOption.map (fun o => o.calls.head?.map (·.data)) = some (some [0xEE, 1, 2, 3]) := by
   decide +kernel
 
-/-- **repaired code**: both runs report the failure -/
-theorem failure_reported_repaired :
-    errOf (runV true wP 3 [wFile]) = some (.pool (-3)) ∧ errOf (runV true wP 40 [wFile]) = some (.pool (-3)) := by
+/-- **current code** (`run` of `Model/BlockProc.lean`): both runs report the failure -/
+theorem failure_reported_current :
+    errOf (run wP 3 [wFile]) = some (.pool (-3)) ∧ errOf (run wP 40 [wFile]) = some (.pool (-3)) := by
   decide +kernel
 
-/-- a failure on the last item submitted — the final fragment block — is reported by no backlog at all (current code) -/
-theorem failure_on_last_item_never_reported :
+/-- `runV true` is the current code -/
+theorem runV_true_eq_run (P : Params) (mb : Nat) (files : List InFile) : runV true P mb files = run P mb files := rfl
+
+/-- before 69db961 a failure on the last item submitted — the final fragment block — was reported by no backlog at all; the
+current code reports it -/
+theorem failure_on_last_item_never_reported_before_69db961 :
     let P : Params := failParams { B := 8, codec := ToyCodec.codec 8, h := fun _ => 0 } marked (-3)
     (runV false P 3 [⟨0, [0xEE, 7, 7, 7, 7]⟩]).toOption.isSome = true ∧
     (runV false P 40 [⟨0, [0xEE, 7, 7, 7, 7]⟩]).toOption.isSome = true ∧
-    errOf (runV true P 3 [⟨0, [0xEE, 7, 7, 7, 7]⟩]) = some (.pool (-3)) := by
+    errOf (run P 3 [⟨0, [0xEE, 7, 7, 7, 7]⟩]) = some (.pool (-3)) := by
   decide +kernel
 
 end Sqfs.Witness.C02
